@@ -368,6 +368,7 @@ class YAMLPath:
         search_method: Optional[PathSearchMethods] = None
         search_attr: str = ""
         search_keyword: Optional[PathSearchKeywords] = None
+        search_term_demarcated: bool = False
         seeking_regex_delim: bool = False
         capturing_regex: bool = False
         pathsep: str = str(self.separator)
@@ -484,6 +485,10 @@ class YAMLPath:
                             continue
                     else:
                         # Embed a nested, demarcated component
+                        if search_method is not None and not segment_id:
+                            # This mark demarcates the search term (an
+                            # escaped mark or one within a RegEx does not)
+                            search_term_demarcated = True
                         demarc_stack.append(char)
                         demarc_count += 1
                 else:
@@ -754,7 +759,10 @@ class YAMLPath:
                         and search_method is not None
                 ):
                     # Undemarcate the search term, if it is so
-                    if segment_id and segment_id[0] in ["'", '"']:
+                    if (
+                            search_term_demarcated
+                            and segment_id and segment_id[0] in ["'", '"']
+                    ):
                         leading_mark = segment_id[0]
                         if segment_id[-1] == leading_mark:
                             segment_id = segment_id[1:-1]
@@ -783,6 +791,7 @@ class YAMLPath:
                 search_method = None
                 search_inverted = False
                 search_keyword = None
+                search_term_demarcated = False
                 continue
 
             elif char == "]":
